@@ -115,6 +115,7 @@ type pinfo struct {
 	Keys                []string // canonical, lower, UPPER spellings (distinct ones)
 	Lit1, Lit2, LitBad  string
 	V1, V2, Zero, Def   string
+	MDef                string // default declared in the parameter's metadata
 	classRep            bool
 	index               int
 }
@@ -162,6 +163,7 @@ func buildDict() []*pinfo {
 		}
 		pi.Zero = render(reflect.Zero(f.Type))
 		pi.Def = render(reflect.ValueOf(fresh).Elem().FieldByName(f.Name))
+		pi.MDef = renderAny(md.Default)
 		cands := append([]string{}, validPool...)
 		if m[1] == "oneof" {
 			cands = append(strings.Split(m[2], ","), cands...)
@@ -256,10 +258,11 @@ type keyEntry struct {
 	Sp string `json:"sp"`
 }
 type caseT struct {
-	Asg  [6][]keyEntry
-	nset int
-	nalt int
-	dup  bool
+	Asg     [6][]keyEntry
+	nset    int
+	nalt    int
+	dup     bool
+	differs bool // some source holds two keys with different value kinds
 }
 
 func loadCases(path string) []caseT {
@@ -286,6 +289,9 @@ func loadCases(path string) []caseT {
 				}
 				if len(asg[s]) > 1 {
 					c.dup = true
+					if asg[s][0].K != asg[s][1].K {
+						c.differs = true
+					}
 				}
 				for _, e := range asg[s] {
 					if e.Sp == "a" {
@@ -300,7 +306,19 @@ func loadCases(path string) []caseT {
 	return out
 }
 
-func (p *pinfo) lit(kind string, rnd *rand.Rand) (string, bool) {
+// spellT fixes, for one case, the alternative key spelling and the spelling of `none`, so that every
+// run of the case hands the real code the same raw keys and values (only orders differ).
+type spellT struct{ alt, none string }
+
+func (p *pinfo) spelling(rnd *rand.Rand) spellT {
+	sp := spellT{none: []string{"none", "None", "NONE"}[rnd.Intn(3)]}
+	if len(p.Keys) > 1 {
+		sp.alt = p.Keys[1+rnd.Intn(len(p.Keys)-1)]
+	}
+	return sp
+}
+
+func (p *pinfo) lit(kind string, sp spellT) (string, bool) {
 	switch kind {
 	case "v1":
 		return p.Lit1, true
@@ -309,7 +327,7 @@ func (p *pinfo) lit(kind string, rnd *rand.Rand) (string, bool) {
 	case "bad":
 		return p.LitBad, p.LitBad != ""
 	case "none":
-		return []string{"none", "None", "NONE"}[rnd.Intn(3)], true
+		return sp.none, true
 	}
 	return "", false
 }
@@ -332,17 +350,13 @@ type kv [2]string
 
 // rawFor builds the raw key/value pairs of source s (0-based) for the parameter; noise keys (unknown
 // parameters, which resolve() only stashes) are mixed in so that map iteration has more to permute.
-func (p *pinfo) rawFor(entries []keyEntry, rnd *rand.Rand, noise bool) []kv {
+func (p *pinfo) rawFor(entries []keyEntry, sp spellT, rnd *rand.Rand, noise bool) []kv {
 	var out []kv
-	alt := ""
-	if len(p.Keys) > 1 {
-		alt = p.Keys[1+rnd.Intn(len(p.Keys)-1)]
-	}
 	for _, e := range entries {
-		l, _ := p.lit(e.K, rnd)
+		l, _ := p.lit(e.K, sp)
 		k := p.Name
 		if e.Sp == "a" {
-			k = alt
+			k = sp.alt
 		}
 		out = append(out, kv{k, l})
 	}
@@ -418,12 +432,13 @@ func (b *tbuf) emit(ev string, fields map[string]any) {
 
 func (p *pinfo) reset(b *tbuf) {
 	b.emit("reset", map[string]any{"param": p.Name, "kind": p.Kind, "local": p.Local, "die": p.Die, "nonzero": p.NonZero,
-		"keys": p.Keys, "lit1": p.Lit1, "lit2": p.Lit2, "litbad": p.LitBad, "v1": p.V1, "v2": p.V2, "zero": p.Zero, "def": p.Def})
+		"keys": p.Keys, "lit1": p.Lit1, "lit2": p.Lit2, "litbad": p.LitBad, "v1": p.V1, "v2": p.V2, "zero": p.Zero, "def": p.Def, "mdef": p.MDef})
 }
 
 // runCase executes one assignment case on fresh Configs in several orders.
 func (p *pinfo) runCase(b *tbuf, ci int, c *caseT, rnd *rand.Rand, reps int) {
 	b.emit("case", map[string]any{"case": ci})
+	sp := p.spelling(rnd)
 	orders := [][]int{{1, 2, 3, 4, 5, 6}, {6, 5, 4, 3, 2, 1}}
 	if c.nset >= 3 {
 		o := []int{1, 2, 3, 4, 5, 6}
@@ -433,12 +448,12 @@ func (p *pinfo) runCase(b *tbuf, ci int, c *caseT, rnd *rand.Rand, reps int) {
 	for oi, order := range orders {
 		cfg := config.New()
 		var steps []stepT
-		touchEmpty := rnd.Intn(2) == 0
+		touchEmpty := rnd.Intn(4) == 0
 		for _, s := range order {
 			if len(c.Asg[s-1]) == 0 && !touchEmpty {
 				continue
 			}
-			steps = append(steps, doOne(cfg, p, s, p.rawFor(c.Asg[s-1], rnd, oi > 0)))
+			steps = append(steps, doOne(cfg, p, s, p.rawFor(c.Asg[s-1], sp, rnd, oi > 0)))
 		}
 		if len(steps) == 0 {
 			steps = append(steps, doOne(cfg, p, 1+rnd.Intn(6), nil))
@@ -451,7 +466,7 @@ func (p *pinfo) runCase(b *tbuf, ci int, c *caseT, rnd *rand.Rand, reps int) {
 		var sets []setT
 		for s := 1; s <= 6; s++ {
 			if len(c.Asg[s-1]) > 0 || rnd.Intn(3) == 0 {
-				r := p.rawFor(c.Asg[s-1], rnd, true)
+				r := p.rawFor(c.Asg[s-1], sp, rnd, true)
 				if r == nil {
 					r = []kv{}
 				}
@@ -469,7 +484,7 @@ func (p *pinfo) runCase(b *tbuf, ci int, c *caseT, rnd *rand.Rand, reps int) {
 		var steps []stepT
 		for s := 6; s >= 1; s-- {
 			if len(c.Asg[s-1]) > 0 {
-				steps = append(steps, doOne(cfg, p, s, p.rawFor(c.Asg[s-1], rnd, r%2 == 1)))
+				steps = append(steps, doOne(cfg, p, s, p.rawFor(c.Asg[s-1], sp, rnd, r%2 == 1)))
 			}
 		}
 		b.emit("run", map[string]any{"case": ci, "steps": steps})
@@ -479,6 +494,7 @@ func (p *pinfo) runCase(b *tbuf, ci int, c *caseT, rnd *rand.Rand, reps int) {
 // randomTrace: seeded update histories (re-updates of a source, all six sources, both APIs).
 func (p *pinfo) randomCase(b *tbuf, ci int, rnd *rand.Rand) {
 	b.emit("case", map[string]any{"case": ci})
+	sp := p.spelling(rnd)
 	kinds := []string{"v1", "v1", "v2", "bad", "none"}
 	entry := func() []keyEntry {
 		switch x := rnd.Intn(10); {
@@ -496,7 +512,7 @@ func (p *pinfo) randomCase(b *tbuf, ci int, rnd *rand.Rand) {
 	ok := func(es []keyEntry) []keyEntry {
 		var o []keyEntry
 		for _, e := range es {
-			if _, has := p.lit(e.K, rnd); has {
+			if _, has := p.lit(e.K, sp); has {
 				o = append(o, e)
 			}
 		}
@@ -511,7 +527,7 @@ func (p *pinfo) randomCase(b *tbuf, ci int, rnd *rand.Rand) {
 				var sets []setT
 				for s := 1; s <= 6; s++ {
 					if rnd.Intn(2) == 0 {
-						r := p.rawFor(ok(entry()), rnd, true)
+						r := p.rawFor(ok(entry()), sp, rnd, true)
 						if r == nil {
 							r = []kv{}
 						}
@@ -523,7 +539,7 @@ func (p *pinfo) randomCase(b *tbuf, ci int, rnd *rand.Rand) {
 				}
 				steps = append(steps, doAll(cfg, p, sets))
 			} else {
-				steps = append(steps, doOne(cfg, p, 1+rnd.Intn(6), p.rawFor(ok(entry()), rnd, true)))
+				steps = append(steps, doOne(cfg, p, 1+rnd.Intn(6), p.rawFor(ok(entry()), sp, rnd, true)))
 			}
 		}
 		b.emit("run", map[string]any{"case": ci, "steps": steps})
@@ -604,16 +620,19 @@ func main() {
 				if !p.applicable(c) {
 					continue
 				}
-				// class representatives get every case; the other parameters every case with at most one
-				// setting source and a seeded quarter of the two-source cases
-				if only == nil && !p.classRep && (c.nset > 2 || (c.nset == 2 && (ci+int(env.Seed))%4 != 0)) {
+				// effort allocation (input selection only): class representatives get every case; the other
+				// parameters the single-key cases with at most one setting source and a seeded eighth of the
+				// remaining cases with at most two setting sources
+				if only == nil && !p.classRep && (c.nset > 2 || ((c.nset == 2 || c.dup || c.nalt > 0) && (ci+int(env.Seed))%8 != 0)) {
 					continue
 				}
 				rnd := rand.New(rand.NewSource(env.Seed*1000003 + hashStr(p.Name) + int64(ci)*7919))
 				reps := 0
 				if c.dup {
 					reps = reps2
-					if c.nset == 1 {
+					// many repetitions where Go's map order can show: one source with two case-variant keys
+					// of different kinds (all of them in re-execution mode, a seeded third otherwise)
+					if c.nset == 1 && c.differs && p.classRep && (only != nil || (ci+int(env.Seed))%3 == 0) {
 						reps = reps1
 					}
 				}
